@@ -154,13 +154,19 @@ def r2_rank_function(ctx, sym, table):
 RESOLVERS = (('pedal.resolvers.simple', True), ('pedal.resolvers.full', True), ('pedal.resolvers.sectional', False))
 
 
-def r3_r5_resolvers(ctx, sym, ids=('R3', 'R5'), writers=True):
+def r3_r5_resolvers(ctx, sym, ids=('R3', 'R5'), writers=True, model=None):
+    """The resolver drivers, executed abstractly: resolve(report, key) of each resolver module is run on small
+    reports with a symbolic rank function and compared with the oracle applied to the stably rank-sorted list."""
     R3, R5 = ids
-    ctx.rule(R3, "each resolver sorts report.feedback (+ ignored_feedback) with list.sort/sorted(key=priority_key) "
-                   "only (stable, no reverse); priority_key defaults to by_priority; Report.add_feedback is the only "
-                   "appender of report.feedback and appends at the end")
-    ctx.rule(R5, "each resolver merges every element of the sorted list in order (no break/continue/condition), "
-                   "then calls finalize() once, starting from set_correct_no_errors(report)")
+    ctx.rule(R3, "each resolver orders report.feedback (+ ignored_feedback) by priority_key with a stable sort "
+                 "(abstract execution of resolve() with a symbolic rank function over reports with ties and "
+                 "inversions: the outcome equals the oracle on the stably sorted list); priority_key defaults to "
+                 "by_priority; report.feedback only ever grows at the end")
+    ctx.rule(R5, "each resolver merges every feedback of the sorted list and finalizes once, starting from "
+                 "set_correct_no_errors(report), and returns/stores the final feedback (abstract execution: label, "
+                 "correct and score of the result equal the oracle's on every small report)")
+    from .resolver_model import Model
+    model = model or Model(ctx, sym)
     for modname, with_ignored in RESOLVERS:
         mod = ctx.repo.module(modname)
         fn = mod.func('resolve')
@@ -174,75 +180,50 @@ def r3_r5_resolvers(ctx, sym, ids=('R3', 'R5'), writers=True):
         ctx.check(isinstance(r, tuple) and r[0] == 'func' and r[1].name == SIMPLE and r[2].name == 'by_priority',
                   R3, tag + ':priority_key', mod, fn, "priority_key does not default to simple.by_priority",
                   "feedback is ordered by something other than the documented ranks", construct='def resolve(...)')
-        sorts = [c for c in calls(fn) if (isinstance(c.func, ast.Attribute) and c.func.attr == 'sort')
-                 or call_name(c) == 'sorted']
-        ok = len(sorts) == 1 and [k.arg for k in sorts[0].keywords] == ['key'] and \
-            norm(sorts[0].keywords[0].value) == 'priority_key' and \
-            len(sorts[0].args) == (0 if isinstance(sorts[0].func, ast.Attribute) else 1)
-        ctx.check(ok, R3, tag + ':stable-sort', mod, sorts[0] if sorts else fn,
-                  "the feedback list is not sorted exactly once with key=priority_key (no reverse, no second pass)",
-                  "ties are no longer broken by creation order / order is reversed",
-                  construct=norm(sorts[0]) if sorts else 'resolve')
-        if not ok:
-            continue
-        if isinstance(sorts[0].func, ast.Attribute):
-            sorted_var = norm(sorts[0].func.value)
-        else:
-            par = sorts[0]._parent
-            sorted_var = norm(par.targets[0]) if isinstance(par, ast.Assign) else None
-        # provenance of the sorted list
-        src = None
-        for n in body_walk(fn):
-            if isinstance(n, ast.Assign) and norm(n.targets[0]) == sorted_var and n.value is not sorts[0]:
-                src = n.value
-        if tag == 'sectional':
-            good = any(isinstance(n, ast.For) and norm(n.iter).endswith('.items()') for n in body_walk(fn)) and \
-                any(norm(n.value) == 'report.feedback' for n in body_walk(fn) if isinstance(n, ast.Assign))
-            appends = [c for c in method_calls(fn, 'append') if 'feedback_by_group' in norm(c.func.value)]
-            good = good and len(appends) == 1 and not any(True for _ in method_calls(fn, 'insert'))
-        else:
-            good = src is not None and norm(src) in ('report.feedback + report.ignored_feedback',)
-        ctx.check(good, R3, tag + ':sorted-list-provenance', mod, src if src is not None else fn,
-                  "the sorted list is not report.feedback%s in creation order" % (
-                      ' + report.ignored_feedback' if with_ignored else ' grouped by parent'),
-                  "creation order among equal keys is lost", construct=norm(src) if src is not None else 'resolve')
-        # R5: loop
-        loops = [n for n in ast.walk(fn) if isinstance(n, ast.For) and norm(n.iter) == sorted_var]
-        ok = len(loops) == 1
-        if ok:
-            loop = loops[0]
-            merges = [c for c in calls(loop) if isinstance(c.func, ast.Attribute) and c.func.attr == 'merge']
-            first = loop.body[0]
-            first_call = first.value if isinstance(first, (ast.Expr, ast.Assign)) else None
-            ok = len(merges) == 1 and first_call is merges[0] and norm(merges[0].args[0]) == norm(loop.target) \
-                and not any(isinstance(n, (ast.Break, ast.Continue, ast.Return)) for n in walk_local(loop)) \
-                and not loop.orelse
-            fin_var = norm(merges[0].func.value) if merges else None
-            if ok:
-                # finalize after the loop, final from set_correct_no_errors(report)
-                body = loop._parent.body
-                after = body[body.index(loop) + 1:]
-                fin = [c for st in after for c in calls(st) if isinstance(c.func, ast.Attribute)
-                       and c.func.attr == 'finalize' and norm(c.func.value) == fin_var]
-                init = [n for n in body[:body.index(loop)] if isinstance(n, ast.Assign)
-                        and norm(n.targets[0]) == fin_var and isinstance(n.value, ast.Call)
-                        and call_name(n.value) == 'set_correct_no_errors' and norm(n.value.args[0]) == 'report']
-                ok = len(fin) == 1 and len(init) == 1
-        ctx.check(ok, R5, tag + ':merge-all-then-finalize', mod, loops[0] if loops else fn,
-                  "the resolver does not merge every sorted feedback in order and then finalize once",
-                  "an eligible higher-ranked feedback is skipped, or the default 'no errors' result is not installed",
-                  construct='for feedback in %s: final.merge(feedback)' % sorted_var)
-        res = [n for n in body_walk(fn) if isinstance(n, ast.Return)]
-        ctx.check(len(res) == 1 and isinstance(res[0].value, ast.Name), R5, tag + ':returns-final', mod, fn,
-                  "resolve does not return the final feedback", "caller gets nothing")
+        order_bad, merge_bad, n = [], [], 0
+        for cfgs, ranks in driver_reports(model):
+            n += 1
+            got = model.run_driver(fn, cfgs, ranks, with_ignored)
+            order = sorted(range(len(cfgs)), key=lambda i: ranks[i])   # stable: ties keep creation order
+            # creation order of the resolver's input: triggered feedback first (report.feedback), then ignored
+            created = [i for i in range(len(cfgs)) if cfgs[i]['triggered']] + \
+                      ([i for i in range(len(cfgs)) if not cfgs[i]['triggered']] if with_ignored else [])
+            order = sorted(created, key=lambda i: ranks[i])
+            want = model.oracle([cfgs[i] for i in order])
+            if isinstance(got, tuple):
+                merge_bad.append((cfgs, ranks, 'raises %s (%s)' % (got[1], got[2]), want))
+                continue
+            if got.get('label') != want['label']:
+                # distinguish ordering from merging: does any permutation-independent reading explain it?
+                unsorted_want = model.oracle([cfgs[i] for i in created])
+                (order_bad if len({ranks[i] for i in created}) > 1 or unsorted_want['label'] != want['label']
+                 else merge_bad).append((cfgs, ranks, got.get('label'), want['label']))
+            elif got.get('correct') != want['correct'] or (
+                    isinstance(got.get('score'), (int, float)) and abs(got['score'] - want['score']) > 1e-9):
+                merge_bad.append((cfgs, ranks, 'correct=%r score=%r' % (got.get('correct'), got.get('score')),
+                                  'correct=%r score=%r' % (want['correct'], want['score'])))
+        ctx.floor(R3, 'driver reports (%s)' % tag, n, 100)
+
+        def show(item):
+            cfgs, ranks, got, want = item
+            return "report %s with ranks %s resolves to %r, expected %r" % (
+                [(c['label'], 'triggered' if c['triggered'] else 'untriggered') for c in cfgs], list(ranks), got, want)
+        ctx.check(not order_bad, R3, tag + ':stable-sort', mod, fn,
+                  "%d of %d small reports are not resolved in stable priority order; e.g. %s" % (
+                      len(order_bad), n, show(order_bad[0]) if order_bad else ''),
+                  "ties are no longer broken by creation order / order is reversed / part of the list is not sorted",
+                  construct='resolve')
+        ctx.check(not merge_bad, R5, tag + ':merge-all-then-finalize', mod, fn,
+                  "%d of %d small reports are not merged completely and finalized once; e.g. %s" % (
+                      len(merge_bad), n, show(merge_bad[0]) if merge_bad else ''),
+                  "an eligible feedback is skipped, a score is dropped, or the default 'no errors' result is not "
+                  "installed", construct='resolve')
     if not writers:
         return
-    # who writes report.feedback
+    # who mutates report.feedback: appending (anywhere in Report) and clearing keep "list order = creation order";
+    # anything else, or any writer outside Report, does not
     rmod = ctx.repo.module(REPORT)
     MUT = ('append', 'extend', 'insert', 'pop', 'remove', 'clear', 'sort', 'reverse')
-    allowed = {('feedback', 'append', 'Report.add_feedback'), ('feedback', 'clear', 'Report.clear'),
-               ('feedback', 'assign', 'Report.__init__'), ('ignored_feedback', 'append', 'Report.add_ignored_feedback'),
-               ('ignored_feedback', 'clear', 'Report.clear'), ('ignored_feedback', 'assign', 'Report.__init__')}
     n = 0
     for m in ctx.repo.modules.values():
         for node in ast.walk(m.tree):
@@ -258,16 +239,44 @@ def r3_r5_resolvers(ctx, sym, ids=('R3', 'R5'), writers=True):
                     if isinstance(t, ast.Attribute) and t.attr in ('feedback', 'ignored_feedback'):
                         base = norm(t.value)
                         if 'report' in base.lower() or (m is rmod and base == 'self'):
-                            hit = (t.attr, 'assign')
+                            empty = isinstance(node, ast.Assign) and isinstance(node.value, ast.List) \
+                                and not node.value.elts
+                            hit = (t.attr, 'assign-empty' if empty else 'assign')
             if hit:
                 n += 1
                 f = enclosing_function(node)
                 q = getattr(f, '_qualname', '<module>')
-                ctx.check(m is rmod and (hit[0], hit[1], q) in allowed, R3,
+                inside_report = m is rmod and q.startswith('Report.')
+                ctx.check(inside_report and hit[1] in ('append', 'clear', 'assign-empty'), R3,
                           'writer:%s.%s@%s' % (hit[0], hit[1], q), m, node,
-                          "report.%s is mutated (%s) outside Report.add_feedback/add_ignored_feedback/clear" % hit,
+                          "report.%s is mutated (%s) other than by appending/clearing inside Report" % hit,
                           "creation order of feedback is no longer the list order (tie-break changes)")
     ctx.floor(R3, 'writers of report.feedback', n, 6)
+
+
+def driver_reports(model):
+    """Small reports for the driver rule: (configs in creation order, rank per config)."""
+    base = [dict(category='runtime', label='A', triggered=True, score='+10%', correct=False),
+            dict(category='runtime', label='B', triggered=True, correct=True, score=0.25),
+            dict(category='runtime', label='C', triggered=False, valence=model.NEG, score='+5%'),
+            dict(category='runtime', label='D', triggered=True, kind=model.KIND_COMPLIMENT),
+            dict(category='runtime', label='E', triggered=True, muted=True, correct=False, score=0.5),
+            dict(category='runtime', label='F', triggered=False, else_message='else F'),
+            dict(category='runtime', label='G', triggered=False, muted=True, valence=model.NEG, score='+5%'),
+            # two feedbacks that look alike (same category, label, message) but differ in what they declare
+            dict(category='runtime', label='H', triggered=True, correct=True),
+            dict(category='runtime', label='H', triggered=True, correct=False)]
+    yield [], []
+    for a in base:
+        yield [a], [1]
+    for a, b in itertools.product(base, repeat=2):
+        if a is b:
+            continue
+        for ranks in ((1, 1), (1, 2), (2, 1)):
+            yield [a, b], ranks
+    for a, b, c in itertools.permutations(base[:4], 3):
+        for ranks in ((1, 1, 1), (2, 1, 1), (1, 2, 1), (2, 2, 1), (3, 2, 1), (1, 1, 0)):
+            yield [a, b, c], ranks
 
 
 def domain_eligibility(model):
